@@ -205,7 +205,9 @@ ev_setbuf(int n)
 	if (kstop)
 		return;
 	int     v  = n;
+	KQ_SNAP(&sock.wq);
 	nng_err rv = push0_set_send_buf_len(&sock, &v, sizeof(v), NNI_TYPE_INT32);
+	KQ_FAULT_RESULT(rv, &sock.wq);
 	CHECK(rv == 0, "setting the send buffer succeeds");
 	/* messages dropped by a shrink are lost by request of the application */
 	for (int i = 0; i < MAXU; i++)
